@@ -147,6 +147,16 @@ func (x *Exec) analyze() (err error) {
 		x.harvestClause(henv, en.Expr)
 	}
 	x.cover(st, x.key+"#cover.pre", "cover", con.Safety, x.posOf(x.fn.Pos()), "precondition and type invariants are satisfiable")
+	for _, sn := range con.Stale {
+		for i, n := range declParamNames(x.fn) {
+			if n == sn && i < len(args) && args[i].K == KPtr {
+				if st.stale == nil {
+					st.stale = map[string]bool{}
+				}
+				st.stale[args[i].T] = true
+			}
+		}
+	}
 	x.structural()
 	st.frames = nil
 	outs := x.runFuncTop(st, args, entryMem)
